@@ -355,6 +355,8 @@ type frame struct {
 }
 
 type Solver struct {
+	decls   []string        // declarations are global: they survive pop (global-declarations)
+	gdecl   map[string]bool
 	cmd     *exec.Cmd
 	in      io.WriteCloser
 	out     *bufio.Reader
@@ -365,11 +367,12 @@ type Solver struct {
 }
 
 const smtPrelude = `(set-option :produce-models true)
+(set-option :global-declarations true)
 (set-logic ALL)
 `
 
 func NewSolver(timeoutMs int) *Solver {
-	s := &Solver{timeout: timeoutMs}
+	s := &Solver{timeout: timeoutMs, gdecl: map[string]bool{}}
 	s.frames = []*frame{{declared: map[string]bool{}}}
 	s.start()
 	return s
@@ -391,6 +394,9 @@ func (s *Solver) start() {
 	}
 	s.dead = false
 	io.WriteString(s.in, smtPrelude)
+	for _, d := range s.decls {
+		io.WriteString(s.in, d+"\n")
+	}
 	// replay frames (used on restart)
 	for i, f := range s.frames {
 		if i > 0 {
@@ -436,21 +442,19 @@ func (s *Solver) Pop() {
 	}
 }
 
-func (s *Solver) IsDeclared(name string) bool {
-	for _, f := range s.frames {
-		if f.declared[name] {
-			return true
-		}
-	}
-	return false
-}
+func (s *Solver) IsDeclared(name string) bool { return s.gdecl[name] }
 
 func (s *Solver) Declare(name, decl string) {
-	if s.IsDeclared(name) {
+	if s.gdecl[name] {
 		return
 	}
-	s.frames[len(s.frames)-1].declared[name] = true
-	s.send(decl)
+	s.gdecl[name] = true
+	s.decls = append(s.decls, decl)
+	if !s.dead {
+		if _, err := io.WriteString(s.in, decl+"\n"); err != nil {
+			s.dead = true
+		}
+	}
 }
 
 func (s *Solver) DeclareConst(name, sort string) {
@@ -467,6 +471,10 @@ func (s *Solver) Assert(t string) {
 // script returns the whole current assertion stack as a flat script.
 func (s *Solver) script() string {
 	var b strings.Builder
+	for _, d := range s.decls {
+		b.WriteString(d)
+		b.WriteByte('\n')
+	}
 	for _, f := range s.frames {
 		for _, l := range f.lines {
 			b.WriteString(l)
@@ -579,6 +587,10 @@ func (s *Solver) CheckNeg(goal string, onSat func(get func([]string) map[string]
 	if res.Status == "unknown" && res.Raw == "" {
 		// quantifier-free relaxation: dropping assumptions is sound for `unsat`
 		var b strings.Builder
+		for _, d := range s.decls {
+			b.WriteString(d)
+			b.WriteByte('\n')
+		}
 		for _, f := range s.frames {
 			for _, l := range f.lines {
 				if strings.Contains(l, "(forall ") || strings.Contains(l, "(exists ") {
